@@ -1155,7 +1155,7 @@ func RunSliceExpr(ctx *Task, expr *ast.SliceExpr) *errchain.PlError {
 				startInt = 0
 			}
 			for i := startInt; i < endInt && i < length; i += stepInt {
-				result += string(str[i])
+				result += str[i : i+1]
 			}
 			ctx.Regs.ReturnAppend(V{result, ast.String})
 			return nil
@@ -1165,7 +1165,7 @@ func RunSliceExpr(ctx *Task, expr *ast.SliceExpr) *errchain.PlError {
 				startInt = length - 1
 			}
 			for i := startInt; i > endInt && i >= 0; i += stepInt {
-				result += string(str[i])
+				result += str[i : i+1]
 			}
 			ctx.Regs.ReturnAppend(V{result, ast.String})
 			return nil
